@@ -303,11 +303,12 @@ fn subset_composite_glyph(g: &CompositeGlyph, plan: &Plan) -> Vec<u8> {
             .subset_flags
             .contains(SubsetFlags::SUBSET_FLAGS_NO_HINTING)
     {
-        if i + 1 >= len {
-            return Vec::new();
+        // a record that ends right after its last component has no instructions to keep,
+        // whatever its flags say: the components are all there, do not drop the glyph
+        if i + 1 < len {
+            let instruction_len = u16::from_be_bytes([out[i], out[i + 1]]);
+            i += 2 + instruction_len as usize;
         }
-        let instruction_len = u16::from_be_bytes([out[i], out[i + 1]]);
-        i += 2 + instruction_len as usize;
     }
 
     out.truncate(i);
@@ -386,6 +387,33 @@ pub(crate) mod verif {
 #[cfg(test)]
 mod test {
     use super::*;
+    use write_fonts::read::{FontData, FontRead};
+
+    #[test]
+    fn test_subset_composite_glyph_instruction_flag_without_instructions() {
+        // two components (glyph 1 with byte offsets, glyph 2 with word offsets and a scale); the last one
+        // has WE_HAVE_INSTRUCTIONS but the record ends after it
+        let record: [u8; 28] = [
+            0xff, 0xff, 0xff, 0xce, 0xff, 0xce, 0x03, 0x84, 0x03, 0x84, 0x00, 0x22, 0x00, 0x01,
+            0x05, 0x06, 0x03, 0x0b, 0x00, 0x02, 0xfe, 0xd4, 0x00, 0x07, 0x20, 0x00, 0x00, 0x00,
+        ];
+        let mut plan = Plan::default();
+        plan.glyph_map
+            .insert(GlyphId::from(1_u16), GlyphId::from(4_u16));
+        plan.glyph_map
+            .insert(GlyphId::from(2_u16), GlyphId::from(5_u16));
+        for len in [26, 27] {
+            let glyph = Glyph::read(FontData::new(&record[..len])).unwrap();
+            let out = subset_glyph(&glyph, &plan);
+            let mut expected = record[..26].to_vec();
+            expected[13] = 4;
+            expected[19] = 5;
+            assert_eq!(out, expected);
+        }
+        // with two more bytes they are the instruction length
+        let glyph = Glyph::read(FontData::new(&record)).unwrap();
+        assert_eq!(subset_glyph(&glyph, &plan).len(), 28);
+    }
     #[test]
     fn test_subset_simple_glyph_trim_padding() {
         let plan = Plan::default();
